@@ -1,42 +1,42 @@
 // Word-level vocabulary for the storage word type {I} ({I.bits} bits). Lemmas are proved in this file.
 
-pub open spec fn mask_spec(k: nat) -> {I} {
+pub open spec fn mask_spec{X}(k: nat) -> {I} {
     if k < {I.bits} { ((1{I} << (k as {I})) - 1) as {I} } else { {I}::MAX }
 }
 /// bit j of a machine word
-pub open spec fn wbit(w: {I}, j: nat) -> bool { (w >> (j as {I})) & 1 == 1 }
+pub open spec fn wbit{X}(w: {I}, j: nat) -> bool { (w >> (j as {I})) & 1 == 1 }
 /// bit i of a sequence of words, little-endian word order
-pub open spec fn bit_at(data: Seq<{I}>, i: int) -> bool { wbit(data[i / {I.bits}], (i % {I.bits}) as nat) }
+pub open spec fn bit_at{X}(data: Seq<{I}>, i: int) -> bool { wbit{X}(data[i / {I.bits}], (i % {I.bits}) as nat) }
 
-pub proof fn lemma_wbit_zero(j: {I})
+pub proof fn lemma_wbit_zero{X}(j: {I})
     requires j < {I.bits}
-    ensures !wbit(0{I}, j as nat)
+    ensures !wbit{X}(0{I}, j as nat)
 {
     assert((0{I} >> j) & 1 == 0) by(bit_vector);
 }
-pub proof fn lemma_wbit_max(j: {I})
+pub proof fn lemma_wbit_max{X}(j: {I})
     requires j < {I.bits}
-    ensures wbit({I}::MAX, j as nat)
+    ensures wbit{X}({I}::MAX, j as nat)
 {
     assert(({I.max} >> j) & 1 == 1) by(bit_vector) requires j < {I.bits};
 }
-pub proof fn lemma_wbit_ext(a: {I}, b: {I})
-    requires forall|j: {I}| j < {I.bits} ==> wbit(a, j as nat) == wbit(b, j as nat)
+pub proof fn lemma_wbit_ext{X}(a: {I}, b: {I})
+    requires forall|j: {I}| j < {I.bits} ==> wbit{X}(a, j as nat) == wbit{X}(b, j as nat)
     ensures a == b
 {
-    @FORBITS{I}{ }{assert(wbit(a, #{I} as nat) == wbit(b, #{I} as nat));}@
+    @FORBITS{I}{ }{assert(wbit{X}(a, #{I} as nat) == wbit{X}(b, #{I} as nat));}@
     assert(a == b) by(bit_vector)
         requires @FORBITS{I}{, }{(((a >> #) & 1) == 1) == (((b >> #) & 1) == 1)}@;
 }
-pub proof fn lemma_mask_ge1(l: {I})
+pub proof fn lemma_mask_ge1{X}(l: {I})
     requires l < {I.bits}
     ensures (1{I} << l) >= 1
 {
     assert((1{I} << l) >= 1) by(bit_vector) requires l < {I.bits};
 }
-pub proof fn lemma_and_mask(w: {I}, k: {I}, j: {I})
+pub proof fn lemma_and_mask{X}(w: {I}, k: {I}, j: {I})
     requires k <= {I.bits}, j < {I.bits}
-    ensures wbit(w & mask_spec(k as nat), j as nat) == (j < k && wbit(w, j as nat))
+    ensures wbit{X}(w & mask_spec{X}(k as nat), j as nat) == (j < k && wbit{X}(w, j as nat))
 {
     if k < {I.bits} {
         assert(((w & (((1{I} << k) - 1) as {I})) >> j) & 1 == (if j < k { (w >> j) & 1 } else { 0 })) by(bit_vector)
@@ -45,9 +45,9 @@ pub proof fn lemma_and_mask(w: {I}, k: {I}, j: {I})
         assert(w & {I.max} == w) by(bit_vector);
     }
 }
-pub proof fn lemma_and_notmask(w: {I}, k: {I}, j: {I})
+pub proof fn lemma_and_notmask{X}(w: {I}, k: {I}, j: {I})
     requires k <= {I.bits}, j < {I.bits}
-    ensures wbit(w & !mask_spec(k as nat), j as nat) == (j >= k && wbit(w, j as nat))
+    ensures wbit{X}(w & !mask_spec{X}(k as nat), j as nat) == (j >= k && wbit{X}(w, j as nat))
 {
     if k < {I.bits} {
         assert(((w & !(((1{I} << k) - 1) as {I})) >> j) & 1 == (if j >= k { (w >> j) & 1 } else { 0 })) by(bit_vector)
@@ -56,61 +56,61 @@ pub proof fn lemma_and_notmask(w: {I}, k: {I}, j: {I})
         assert(((w & !{I.max}) >> j) & 1 == 0) by(bit_vector);
     }
 }
-pub proof fn lemma_wbit_or(a: {I}, b: {I}, j: {I})
+pub proof fn lemma_wbit_or{X}(a: {I}, b: {I}, j: {I})
     requires j < {I.bits}
-    ensures wbit(a | b, j as nat) == (wbit(a, j as nat) || wbit(b, j as nat))
+    ensures wbit{X}(a | b, j as nat) == (wbit{X}(a, j as nat) || wbit{X}(b, j as nat))
 {
     assert((((a | b) >> j) & 1 == 1) == (((a >> j) & 1 == 1) || ((b >> j) & 1 == 1))) by(bit_vector);
 }
-pub proof fn lemma_wbit_and(a: {I}, b: {I}, j: {I})
+pub proof fn lemma_wbit_and{X}(a: {I}, b: {I}, j: {I})
     requires j < {I.bits}
-    ensures wbit(a & b, j as nat) == (wbit(a, j as nat) && wbit(b, j as nat))
+    ensures wbit{X}(a & b, j as nat) == (wbit{X}(a, j as nat) && wbit{X}(b, j as nat))
 {
     assert((((a & b) >> j) & 1 == 1) == (((a >> j) & 1 == 1) && ((b >> j) & 1 == 1))) by(bit_vector);
 }
-pub proof fn lemma_wbit_xor(a: {I}, b: {I}, j: {I})
+pub proof fn lemma_wbit_xor{X}(a: {I}, b: {I}, j: {I})
     requires j < {I.bits}
-    ensures wbit(a ^ b, j as nat) == (wbit(a, j as nat) != wbit(b, j as nat))
+    ensures wbit{X}(a ^ b, j as nat) == (wbit{X}(a, j as nat) != wbit{X}(b, j as nat))
 {
     assert((((a ^ b) >> j) & 1 == 1) == (((a >> j) & 1 == 1) != ((b >> j) & 1 == 1))) by(bit_vector);
 }
-pub proof fn lemma_wbit_not(a: {I}, j: {I})
+pub proof fn lemma_wbit_not{X}(a: {I}, j: {I})
     requires j < {I.bits}
-    ensures wbit(!a, j as nat) == !wbit(a, j as nat)
+    ensures wbit{X}(!a, j as nat) == !wbit{X}(a, j as nat)
 {
     assert((((!a) >> j) & 1 == 1) == !((a >> j) & 1 == 1)) by(bit_vector) requires j < {I.bits};
 }
-pub proof fn lemma_wbit_shl(a: {I}, s: {I}, j: {I})
+pub proof fn lemma_wbit_shl{X}(a: {I}, s: {I}, j: {I})
     requires j < {I.bits}, s < {I.bits}
-    ensures wbit(a << s, j as nat) == (j >= s && wbit(a, (j - s) as nat))
+    ensures wbit{X}(a << s, j as nat) == (j >= s && wbit{X}(a, (j - s) as nat))
 {
     assert((((a << s) >> j) & 1 == 1) == (j >= s && ((a >> ((j - s) as {I})) & 1 == 1))) by(bit_vector)
         requires j < {I.bits}, s < {I.bits};
 }
-pub proof fn lemma_wbit_shr(a: {I}, s: {I}, j: {I})
+pub proof fn lemma_wbit_shr{X}(a: {I}, s: {I}, j: {I})
     requires j < {I.bits}, s < {I.bits}
-    ensures wbit(a >> s, j as nat) == (j + s < {I.bits} && wbit(a, (j + s) as nat))
+    ensures wbit{X}(a >> s, j as nat) == (j + s < {I.bits} && wbit{X}(a, (j + s) as nat))
 {
     assert((((a >> s) >> j) & 1 == 1) == (j + s < {I.bits} && ((a >> ((j + s) as {I})) & 1 == 1))) by(bit_vector)
         requires j < {I.bits}, s < {I.bits};
 }
-pub proof fn lemma_wbit_one(j: {I})
+pub proof fn lemma_wbit_one{X}(j: {I})
     requires j < {I.bits}
-    ensures wbit(1{I}, j as nat) == (j == 0)
+    ensures wbit{X}(1{I}, j as nat) == (j == 0)
 {
     assert(((1{I} >> j) & 1 == 1) == (j == 0)) by(bit_vector) requires j < {I.bits};
 }
-pub proof fn lemma_and1(w: {I})
-    ensures (w & 1) == 0 || (w & 1) == 1, ((w & 1) == 1) == wbit(w, 0)
+pub proof fn lemma_and1{X}(w: {I})
+    ensures (w & 1) == 0 || (w & 1) == 1, ((w & 1) == 1) == wbit{X}(w, 0)
 {
     assert((w & 1) == 0 || (w & 1) == 1) by(bit_vector);
     assert(((w & 1) == 1) == (((w >> 0) & 1) == 1)) by(bit_vector);
 }
 
 // read a chunk: bit j of ((w >> s) & mask(l)) is bit s+j of w for j<l, else 0
-pub proof fn lemma_chunk_read(w: {I}, s: {I}, l: {I}, j: {I})
+pub proof fn lemma_chunk_read{X}(w: {I}, s: {I}, l: {I}, j: {I})
     requires s < {I.bits}, 1 <= l <= {I.bits}, s + l <= {I.bits}, j < {I.bits}
-    ensures wbit((w >> s) & mask_spec(l as nat), j as nat) == (j < l && wbit(w, (s + j) as nat))
+    ensures wbit{X}((w >> s) & mask_spec{X}(l as nat), j as nat) == (j < l && wbit{X}(w, (s + j) as nat))
 {
     if l < {I.bits} {
         assert((((w >> s) & (((1{I} << l) - 1) as {I})) >> j) & 1 == (if j < l { (w >> ((s + j) as {I})) & 1 } else { 0 })) by(bit_vector)
@@ -121,10 +121,10 @@ pub proof fn lemma_chunk_read(w: {I}, s: {I}, l: {I}, j: {I})
     }
 }
 // write a chunk: t' = (t & !(mask(l) << p)) | (d << p), where only the low l bits of d count
-pub proof fn lemma_chunk_write(t: {I}, d: {I}, p: {I}, l: {I}, j: {I})
+pub proof fn lemma_chunk_write{X}(t: {I}, d: {I}, p: {I}, l: {I}, j: {I})
     requires p < {I.bits}, 1 <= l <= {I.bits}, p + l <= {I.bits}, j < {I.bits}
-    ensures wbit((t & !(mask_spec(l as nat) << p)) | ((d & mask_spec(l as nat)) << p), j as nat)
-        == (if p <= j < p + l { wbit(d, (j - p) as nat) } else { wbit(t, j as nat) })
+    ensures wbit{X}((t & !(mask_spec{X}(l as nat) << p)) | ((d & mask_spec{X}(l as nat)) << p), j as nat)
+        == (if p <= j < p + l { wbit{X}(d, (j - p) as nat) } else { wbit{X}(t, j as nat) })
 {
     if l < {I.bits} {
         assert((((t & !((((1{I} << l) - 1) as {I}) << p)) | ((d & (((1{I} << l) - 1) as {I})) << p)) >> j) & 1
@@ -135,9 +135,9 @@ pub proof fn lemma_chunk_write(t: {I}, d: {I}, p: {I}, l: {I}, j: {I})
         assert((((t & !({I.max} << p)) | ((d & {I.max}) << p)) >> j) & 1 == (d >> j) & 1) by(bit_vector) requires p == 0, j < {I.bits};
     }
 }
-pub proof fn lemma_chunk_clear(t: {I}, p: {I}, l: {I}, j: {I})
+pub proof fn lemma_chunk_clear{X}(t: {I}, p: {I}, l: {I}, j: {I})
     requires p < {I.bits}, 1 <= l <= {I.bits}, p + l <= {I.bits}, j < {I.bits}
-    ensures wbit(t & !(mask_spec(l as nat) << p), j as nat) == (if p <= j < p + l { false } else { wbit(t, j as nat) })
+    ensures wbit{X}(t & !(mask_spec{X}(l as nat) << p), j as nat) == (if p <= j < p + l { false } else { wbit{X}(t, j as nat) })
 {
     if l < {I.bits} {
         assert(((t & !((((1{I} << l) - 1) as {I}) << p)) >> j) & 1
@@ -148,9 +148,9 @@ pub proof fn lemma_chunk_clear(t: {I}, p: {I}, l: {I}, j: {I})
         assert(((t & !({I.max} << p)) >> j) & 1 == 0) by(bit_vector) requires p == 0, j < {I.bits};
     }
 }
-pub proof fn lemma_mask_idem(x: {I}, l: {I})
+pub proof fn lemma_mask_idem{X}(x: {I}, l: {I})
     requires l <= {I.bits}
-    ensures (x & mask_spec(l as nat)) & mask_spec(l as nat) == x & mask_spec(l as nat)
+    ensures (x & mask_spec{X}(l as nat)) & mask_spec{X}(l as nat) == x & mask_spec{X}(l as nat)
 {
     if l < {I.bits} {
         assert((x & (((1{I} << l) - 1) as {I})) & (((1{I} << l) - 1) as {I}) == x & (((1{I} << l) - 1) as {I})) by(bit_vector);
@@ -158,73 +158,73 @@ pub proof fn lemma_mask_idem(x: {I}, l: {I})
         assert((x & {I.max}) & {I.max} == x & {I.max}) by(bit_vector);
     }
 }
-pub proof fn lemma_and_mask_low(d: {I}, l: {I}, j: {I})
+pub proof fn lemma_and_mask_low{X}(d: {I}, l: {I}, j: {I})
     requires 1 <= l <= {I.bits}, j < l
-    ensures wbit(d & mask_spec(l as nat), j as nat) == wbit(d, j as nat)
+    ensures wbit{X}(d & mask_spec{X}(l as nat), j as nat) == wbit{X}(d, j as nat)
 {
-    lemma_and_mask(d, l, j);
+    lemma_and_mask{X}(d, l, j);
 }
 // or a chunk into a zero region
-pub proof fn lemma_or_zero_chunk(t: {I}, d: {I}, p: {I}, l: {I}, j: {I})
+pub proof fn lemma_or_zero_chunk{X}(t: {I}, d: {I}, p: {I}, l: {I}, j: {I})
     requires p < {I.bits}, 1 <= l <= {I.bits}, p + l <= {I.bits}, j < {I.bits},
-        forall|k: {I}| p <= k < p + l ==> !wbit(t, k as nat),
-    ensures wbit(t | ((d & mask_spec(l as nat)) << p), j as nat)
-        == (if p <= j < p + l { wbit(d, (j - p) as nat) } else { wbit(t, j as nat) })
+        forall|k: {I}| p <= k < p + l ==> !wbit{X}(t, k as nat),
+    ensures wbit{X}(t | ((d & mask_spec{X}(l as nat)) << p), j as nat)
+        == (if p <= j < p + l { wbit{X}(d, (j - p) as nat) } else { wbit{X}(t, j as nat) })
 {
-    let dm = d & mask_spec(l as nat);
-    lemma_wbit_or(t, dm << p, j);
-    lemma_wbit_shl(dm, p, j);
+    let dm = d & mask_spec{X}(l as nat);
+    lemma_wbit_or{X}(t, dm << p, j);
+    lemma_wbit_shl{X}(dm, p, j);
     if p <= j < p + l {
-        assert(!wbit(t, j as nat));
-        lemma_and_mask(d, l, (j - p) as {I});
+        assert(!wbit{X}(t, j as nat));
+        lemma_and_mask{X}(d, l, (j - p) as {I});
     } else if j >= p {
-        lemma_and_mask(d, l, (j - p) as {I});
+        lemma_and_mask{X}(d, l, (j - p) as {I});
     }
 }
 
 // ---- run lengths inside one word
-pub open spec fn is_lz(w: {I}, r: int) -> bool {
+pub open spec fn is_lz{X}(w: {I}, r: int) -> bool {
     &&& 0 <= r <= {I.bits}
-    &&& forall|j: nat| {I.bits} - r <= j < {I.bits} ==> !wbit(w, j)
-    &&& r < {I.bits} ==> wbit(w, ({I.bits} - 1 - r) as nat)
+    &&& forall|j: nat| {I.bits} - r <= j < {I.bits} ==> !wbit{X}(w, j)
+    &&& r < {I.bits} ==> wbit{X}(w, ({I.bits} - 1 - r) as nat)
 }
-pub open spec fn is_tz(w: {I}, r: int) -> bool {
+pub open spec fn is_tz{X}(w: {I}, r: int) -> bool {
     &&& 0 <= r <= {I.bits}
-    &&& forall|j: nat| j < r ==> !wbit(w, j)
-    &&& r < {I.bits} ==> wbit(w, r as nat)
+    &&& forall|j: nat| j < r ==> !wbit{X}(w, j)
+    &&& r < {I.bits} ==> wbit{X}(w, r as nat)
 }
-pub proof fn lemma_lz_full(w: {I}, r: int)
-    requires is_lz(w, r)
+pub proof fn lemma_lz_full{X}(w: {I}, r: int)
+    requires is_lz{X}(w, r)
     ensures (w == 0) == (r == {I.bits})
 {
     if r == {I.bits} {
-        assert forall|j: {I}| j < {I.bits} implies wbit(w, j as nat) == wbit(0{I}, j as nat) by { lemma_wbit_zero(j); }
-        lemma_wbit_ext(w, 0{I});
+        assert forall|j: {I}| j < {I.bits} implies wbit{X}(w, j as nat) == wbit{X}(0{I}, j as nat) by { lemma_wbit_zero{X}(j); }
+        lemma_wbit_ext{X}(w, 0{I});
     } else {
-        lemma_wbit_zero(({I.bits} - 1 - r) as {I});
+        lemma_wbit_zero{X}(({I.bits} - 1 - r) as {I});
     }
 }
-pub proof fn lemma_tz_full(w: {I}, r: int)
-    requires is_tz(w, r)
+pub proof fn lemma_tz_full{X}(w: {I}, r: int)
+    requires is_tz{X}(w, r)
     ensures (w == 0) == (r == {I.bits})
 {
     if r == {I.bits} {
-        assert forall|j: {I}| j < {I.bits} implies wbit(w, j as nat) == wbit(0{I}, j as nat) by { lemma_wbit_zero(j); }
-        lemma_wbit_ext(w, 0{I});
+        assert forall|j: {I}| j < {I.bits} implies wbit{X}(w, j as nat) == wbit{X}(0{I}, j as nat) by { lemma_wbit_zero{X}(j); }
+        lemma_wbit_ext{X}(w, 0{I});
     } else {
-        lemma_wbit_zero(r as {I});
+        lemma_wbit_zero{X}(r as {I});
     }
 }
 
 // index arithmetic of a chunk [a, a+l) that stays inside one word, copied from/to [b, b+l)
-pub proof fn lemma_chunk_idx(i: int, a: int, b: int, l: int)
+pub proof fn lemma_chunk_idx{X}(i: int, a: int, b: int, l: int)
     requires 0 <= a, 0 <= b, 1 <= l, a <= i < a + l, a % {I.bits} + l <= {I.bits}, b % {I.bits} + l <= {I.bits}
     ensures
         i / {I.bits} == a / {I.bits}, i % {I.bits} == a % {I.bits} + (i - a),
         (b + (i - a)) / {I.bits} == b / {I.bits}, (b + (i - a)) % {I.bits} == b % {I.bits} + (i - a),
 {
 }
-pub proof fn lemma_chunk_idx1(i: int, a: int, l: int)
+pub proof fn lemma_chunk_idx1{X}(i: int, a: int, l: int)
     requires 0 <= a, 1 <= l, a % {I.bits} + l <= {I.bits}, 0 <= i
     ensures
         (a <= i < a + l) ==> (i / {I.bits} == a / {I.bits} && i % {I.bits} == a % {I.bits} + (i - a)),
@@ -232,65 +232,65 @@ pub proof fn lemma_chunk_idx1(i: int, a: int, l: int)
 {
 }
 // a chunk of l bits ending just below index x, with l <= (x-1) % WB + 1, stays inside the word holding x-1
-pub proof fn lemma_top_chunk(x: int, l: int)
+pub proof fn lemma_top_chunk{X}(x: int, l: int)
     requires x >= 1, 1 <= l <= (x - 1) % {I.bits} + 1
     ensures x - l >= 0, (x - l) % {I.bits} + l <= {I.bits}, (x - l) / {I.bits} == (x - 1) / {I.bits},
 {
 }
 // (w << 1) | c  with c in {0,1}: bit 0 is c, bit j>0 is bit j-1 of w
-pub proof fn lemma_shl1_or(w: {I}, cw: {I}, c: bool)
+pub proof fn lemma_shl1_or{X}(w: {I}, cw: {I}, c: bool)
     requires cw == (if c { 1{I} } else { 0{I} })
-    ensures forall|j: nat| j < {I.bits} ==> #[trigger] wbit((w << 1) | cw, j) == (if j == 0 { c } else { wbit(w, (j - 1) as nat) })
+    ensures forall|j: nat| j < {I.bits} ==> #[trigger] wbit{X}((w << 1) | cw, j) == (if j == 0 { c } else { wbit{X}(w, (j - 1) as nat) })
 {
-    assert forall|j: nat| j < {I.bits} implies #[trigger] wbit((w << 1) | cw, j) == (if j == 0 { c } else { wbit(w, (j - 1) as nat) }) by {
+    assert forall|j: nat| j < {I.bits} implies #[trigger] wbit{X}((w << 1) | cw, j) == (if j == 0 { c } else { wbit{X}(w, (j - 1) as nat) }) by {
         let ju = j as {I};
-        lemma_wbit_or(w << 1, cw, ju);
-        lemma_wbit_shl(w, 1, ju);
-        lemma_wbit_one(ju); lemma_wbit_zero(ju);
+        lemma_wbit_or{X}(w << 1, cw, ju);
+        lemma_wbit_shl{X}(w, 1, ju);
+        lemma_wbit_one{X}(ju); lemma_wbit_zero{X}(ju);
     }
 }
 // (w >> 1) | (c << p): bit p is c (provided bit p+1.. of w are zero), bit j<p is bit j+1 of w
-pub proof fn lemma_shr1_or(w: {I}, cw: {I}, c: bool, p: {I})
+pub proof fn lemma_shr1_or{X}(w: {I}, cw: {I}, c: bool, p: {I})
     requires cw == (if c { 1{I} } else { 0{I} }), p < {I.bits}
-    ensures forall|j: nat| j < {I.bits} ==> #[trigger] wbit((w >> 1) | (cw << p), j) == ((j + 1 < {I.bits} && wbit(w, j + 1)) || (j == p && c))
+    ensures forall|j: nat| j < {I.bits} ==> #[trigger] wbit{X}((w >> 1) | (cw << p), j) == ((j + 1 < {I.bits} && wbit{X}(w, j + 1)) || (j == p && c))
 {
-    assert forall|j: nat| j < {I.bits} implies #[trigger] wbit((w >> 1) | (cw << p), j) == ((j + 1 < {I.bits} && wbit(w, j + 1)) || (j == p && c)) by {
+    assert forall|j: nat| j < {I.bits} implies #[trigger] wbit{X}((w >> 1) | (cw << p), j) == ((j + 1 < {I.bits} && wbit{X}(w, j + 1)) || (j == p && c)) by {
         let ju = j as {I};
-        lemma_wbit_or(w >> 1, cw << p, ju);
-        lemma_wbit_shr(w, 1, ju);
-        lemma_wbit_shl(cw, p, ju);
-        if ju >= p { lemma_wbit_one((ju - p) as {I}); lemma_wbit_zero((ju - p) as {I}); }
+        lemma_wbit_or{X}(w >> 1, cw << p, ju);
+        lemma_wbit_shr{X}(w, 1, ju);
+        lemma_wbit_shl{X}(cw, p, ju);
+        if ju >= p { lemma_wbit_one{X}((ju - p) as {I}); lemma_wbit_zero{X}((ju - p) as {I}); }
     }
 }
-pub proof fn lemma_not_zero_max(v: {I})
+pub proof fn lemma_not_zero_max{X}(v: {I})
     ensures (!v == 0) == (v == {I}::MAX), (!v == {I}::MAX) == (v == 0)
 {
     assert((!v == 0) == (v == {I.max})) by(bit_vector);
     assert((!v == {I.max}) == (v == 0)) by(bit_vector);
 }
-pub proof fn lemma_word_zero_bits(w: {I})
-    ensures (w == 0) == (forall|j: nat| j < {I.bits} ==> !wbit(w, j))
+pub proof fn lemma_word_zero_bits{X}(w: {I})
+    ensures (w == 0) == (forall|j: nat| j < {I.bits} ==> !wbit{X}(w, j))
 {
     if w == 0 {
-        assert forall|j: nat| j < {I.bits} implies !wbit(w, j) by { lemma_wbit_zero(j as {I}); }
+        assert forall|j: nat| j < {I.bits} implies !wbit{X}(w, j) by { lemma_wbit_zero{X}(j as {I}); }
     }
-    if forall|j: nat| j < {I.bits} ==> !wbit(w, j) {
-        assert forall|j: {I}| j < {I.bits} implies wbit(w, j as nat) == wbit(0{I}, j as nat) by { lemma_wbit_zero(j); }
-        lemma_wbit_ext(w, 0{I});
+    if forall|j: nat| j < {I.bits} ==> !wbit{X}(w, j) {
+        assert forall|j: {I}| j < {I.bits} implies wbit{X}(w, j as nat) == wbit{X}(0{I}, j as nat) by { lemma_wbit_zero{X}(j); }
+        lemma_wbit_ext{X}(w, 0{I});
     }
 }
 // funnel shift: (w1 >> s) | (w2 << (WB - s)), 0 < s < WB
-pub proof fn lemma_funnel(w1: {I}, w2: {I}, s: {I}, j: {I})
+pub proof fn lemma_funnel{X}(w1: {I}, w2: {I}, s: {I}, j: {I})
     requires 0 < s < {I.bits}, j < {I.bits}
-    ensures wbit((w1 >> s) | (w2 << (({I.bits} - s) as {I})), j as nat) ==
-        (if j + s < {I.bits} { wbit(w1, (j + s) as nat) } else { wbit(w2, (j + s - {I.bits}) as nat) })
+    ensures wbit{X}((w1 >> s) | (w2 << (({I.bits} - s) as {I})), j as nat) ==
+        (if j + s < {I.bits} { wbit{X}(w1, (j + s) as nat) } else { wbit{X}(w2, (j + s - {I.bits}) as nat) })
 {
-    lemma_wbit_or(w1 >> s, w2 << (({I.bits} - s) as {I}), j);
-    lemma_wbit_shr(w1, s, j);
-    lemma_wbit_shl(w2, ({I.bits} - s) as {I}, j);
+    lemma_wbit_or{X}(w1 >> s, w2 << (({I.bits} - s) as {I}), j);
+    lemma_wbit_shr{X}(w1, s, j);
+    lemma_wbit_shl{X}(w2, ({I.bits} - s) as {I}, j);
 }
 // index of bit s + b in terms of word/offset coordinates
-pub proof fn lemma_add_idx(s: int, b: int)
+pub proof fn lemma_add_idx{X}(s: int, b: int)
     requires 0 <= s, 0 <= b
     ensures
         b % {I.bits} + s % {I.bits} < {I.bits} ==> ((s + b) / {I.bits} == s / {I.bits} + b / {I.bits} && (s + b) % {I.bits} == b % {I.bits} + s % {I.bits}),
